@@ -132,7 +132,7 @@ def run_random_case(ctx, kind_, idx):
     from traffic_weaver.process import truncate
     rng = ctx.rng(kind_, idx)
     cid = ctx.case_id(kind_, idx)
-    x, y, meta = R.gen_series(rng, 2, 60, ties_share=0.2)
+    x, y, meta = R.gen_series(rng, 2, 60, ties_share=0.2, long_share=R.LONG_SHARE)
     mode = ["function", "weaver", "weaver_reshaped", "slice_value", "slice_index", "truncate_index"][int(rng.integers(0, 6))]
     ctx.count("mode:%s" % mode)
     info = {"mode": mode, "m": len(x), "xcls": meta["xcls"]}
